@@ -15,6 +15,10 @@ type CodeWriter struct {
 	WriteSemicolons bool
 
 	pendings []rune
+
+	// semiOmitted is set when WriteSemi left out an optional semicolon: the text
+	// written next decides whether the statement has to be terminated after all.
+	semiOmitted bool
 }
 
 // emitString appends s to the buffer and keeps the source mapper's position in step.
@@ -56,10 +60,43 @@ func (cw *CodeWriter) separate(next byte) {
 	}
 }
 
+// continuesStatement reports whether a line that starts with next is read as a
+// continuation of the statement before it: a⏎(b) is a call, a⏎[b] an index access,
+// a⏎-b a subtraction and a⏎`b` a tagged template.
+func continuesStatement(next byte) bool {
+	switch next {
+	case '(', '[', '`', '+', '-':
+		return true
+	}
+	return false
+}
+
+// closeStatement writes the semicolon that WriteSemi left out when the text about to
+// be written would otherwise continue the previous statement.
+func (cw *CodeWriter) closeStatement(next byte) {
+	if !cw.semiOmitted {
+		return
+	}
+	cw.semiOmitted = false
+	if continuesStatement(next) {
+		cw.emitRune(';')
+	}
+}
+
+// TerminateStatement writes the semicolon that WriteSemi left out. A printer calls it
+// before a keyword that needs the previous statement to be terminated (else).
+func (cw *CodeWriter) TerminateStatement() {
+	if cw.semiOmitted {
+		cw.semiOmitted = false
+		cw.emitRune(';')
+	}
+}
+
 // WriteString writes a string to the buffer
 func (cw *CodeWriter) WriteString(s string) {
 	cw.flushPending()
 	if len(s) > 0 {
+		cw.closeStatement(s[0])
 		cw.separate(s[0])
 	}
 	cw.emitString(s)
@@ -69,6 +106,7 @@ func (cw *CodeWriter) WriteString(s string) {
 func (cw *CodeWriter) WriteRune(r rune) {
 	cw.flushPending()
 	if r < 0x80 {
+		cw.closeStatement(byte(r))
 		cw.separate(byte(r))
 	}
 	cw.emitRune(r)
@@ -82,7 +120,9 @@ func (cw *CodeWriter) WriteSemi() {
 	}
 	if cw.WriteSemicolons {
 		cw.WriteRune(';')
+		return
 	}
+	cw.semiOmitted = true
 }
 
 // String returns the accumulated string
